@@ -595,6 +595,11 @@ pub struct Stats {
     pub secondary_window: Option<usize>,
     pub windowed_continuations: u64,
     pub full_continuations: u64,
+    /// Wall-clock *budget* guard: when it expires the remaining crash / fault
+    /// points of the current case are not enumerated (the case is reported as
+    /// truncated, never as a verdict).
+    pub hard_stop: Option<verif_core::Budget>,
+    pub truncated: bool,
 }
 
 impl Stats {
@@ -620,7 +625,15 @@ impl Stats {
             secondary_window: None,
             windowed_continuations: 0,
             full_continuations: 0,
+            hard_stop: None,
+            truncated: false,
         }
+    }
+    pub fn out_of_time(&mut self) -> bool {
+        if self.hard_stop.is_some_and(|b| b.expired()) {
+            self.truncated = true;
+        }
+        self.truncated
     }
 }
 
@@ -1325,6 +1338,9 @@ pub fn outstanding(c: &ExternalActionCoordinatorV1, env: &CaseEnv) -> u64 {
 
 pub fn crash_after_every_op<B: Backend>(env: &CaseEnv, be: &mut B, main: &MainTrace<B>, stats: &mut Stats) -> Result<(), Abort> {
     for i in 0..env.ops.len() {
+        if stats.out_of_time() {
+            break;
+        }
         let st = &main.states[i + 1];
         let why = format!("crash after op {i} {:?}", env.ops[i]);
         let secondary = main.events[i].store_calls.is_empty() && !matches!(env.ops[i], Op::Recover);
@@ -1343,6 +1359,9 @@ pub fn crash_after_every_op<B: Backend>(env: &CaseEnv, be: &mut B, main: &MainTr
 
 pub fn crash_after_every_store_call<B: Backend>(env: &CaseEnv, be: &mut B, main: &MainTrace<B>, stats: &mut Stats) -> Result<(), Abort> {
     for cp in &main.calls {
+        if stats.out_of_time() {
+            break;
+        }
         let i = cp.op;
         match cp.kind {
             CallKind::Append => {
@@ -1389,6 +1408,9 @@ pub fn store_faults<B: Backend>(env: &CaseEnv, be: &mut B, main: &MainTrace<B>, 
     let mut n_append = 0u32;
     let mut n_flush = 0u32;
     for cp in &main.calls {
+        if stats.out_of_time() {
+            break;
+        }
         let i = cp.op;
         let n = match cp.kind {
             CallKind::Append => {
